@@ -162,14 +162,16 @@ def _funcs_of(av):
     return []
 
 
-def rule_nomut(ctx):
-    rr = RuleResult('C07', 'C07.nomut', 'EFF',
+def rule_nomut(ctx, prop='C07', rule='C07.nomut', only=None, floor=150):
+    rr = RuleResult(prop, rule, 'EFF',
                     'dispatch-time code does not write in place to objects it '
-                    'did not create', floor=150)
+                    'did not create', floor=floor)
     E = ctx.effects
     entries = entry_functions(ctx)
     n_writers = 0
     for fq, (f, role, fresh) in sorted(entries.items()):
+        if only is not None and not only(f, role):
+            continue
         rr.instances += 1
         s = E.summ[f.fq]
         bad = []
